@@ -123,6 +123,7 @@ struct fault {
 
 struct simdev {
 	char path[PATH_MAX];
+	char abspath[PATH_MAX];   /* the same file named from "/" (plans name devices relative to the cwd) */
 	int blk;                /* personality: 0 regular file, 1 block device            */
 	int discard_zeroes;     /* blk personality: does BLKDISCARD zero?                  */
 	int no_discard;         /* blk personality: BLKDISCARD -> EOPNOTSUPP                */
@@ -219,6 +220,11 @@ static void sim_init(void)
 				die("bad dev line");
 			struct simdev *d = &P.dev[idx];
 			strncpy(d->path, a1, sizeof d->path - 1);
+			if (a1[0] != '/') {
+				char cwd[PATH_MAX];
+				if (getcwd(cwd, sizeof cwd))
+					snprintf(d->abspath, sizeof d->abspath, "%s/%s", cwd, a1);
+			}
 			const char *os[] = {o1, o2, o3, o4};
 			for (int i = 0; i < 4; i++) {
 				if (!strcmp(os[i], "blk")) d->blk = 1;
@@ -324,9 +330,12 @@ static int dev_of_path(const char *p)
 {
 	if (!P.active || !p)
 		return -1;
-	for (int i = 0; i < P.ndev; i++)
+	for (int i = 0; i < P.ndev; i++) {
 		if (P.dev[i].path[0] && !strcmp(P.dev[i].path, p))
 			return i;
+		if (P.dev[i].abspath[0] && !strcmp(P.dev[i].abspath, p))
+			return i;
+	}
 	return -1;
 }
 
